@@ -327,6 +327,12 @@ func (m *monitor) after(o Op, pre *preT, ob obsT, err error, events sdk.Events) 
 			if m.execCount[o.Nonce] > 1 {
 				m.fail("C01:exec-twice", fmt.Sprintf("parked claim %d executed %d times", o.Nonce, m.execCount[o.Nonce]))
 			}
+			if runs := h.handlerRuns(o.Nonce); runs >= 0 {
+				h.rep.Count("exec:callback-reenters-executeClaim")
+				if runs != 1 {
+					m.fail("C01:exec-twice", fmt.Sprintf("the effects of parked claim %d ran %d times within one execution (its callback re-entered executeClaim for the same nonce)", o.Nonce, runs))
+				}
+			}
 		} else {
 			if was != is || !sameU64(old.pending, ob.pending) {
 				m.fail("C01:failed-exec-pending", fmt.Sprintf("failed execution of nonce %d changed the parked claims %v -> %v", o.Nonce, old.pending, ob.pending))
